@@ -2,7 +2,7 @@
   Proofs/DispatchReorder.lean — C19: operations that reorder or re-select batch entries (`flip`, `roll`,
   `index_select`, any dim literal incl. negative ones) carry the grids along, and operations that may move the batch
   dimension (`permute`, `transpose`) or mix entries (`roll` of the flattened tensor) are demoted to plain tensors —
-  `ImageBatch._torch_function_grid` as repaired by PENDING-F19.
+  `ImageBatch._torch_function_grid` as repaired by 05e9301 / c94e057.
 -/
 import Deepali.Proofs.DispatchAppend
 
